@@ -184,6 +184,28 @@ func c26(x *ctx) {
 			defs = append(defs, c26def{"argc-pattern", src, u, n, lits, fmt.Sprintf("n=%d:unconditional=%d", n, u)})
 		}
 	}
+	// (C') sparse typed getters: some positions are read through the untyped GET_ARG(i); the highest position is typed
+	for n := 2; n <= 4; n++ {
+		for mask := 0; mask < 1<<(n-1); mask++ {
+			if mask == (1<<(n-1))-1 {
+				continue // dense: covered above
+			}
+			var body strings.Builder
+			var lits []string
+			for i := 1; i <= n; i++ {
+				typed := i == n || mask&(1<<(i-1)) != 0
+				if typed {
+					fmt.Fprintf(&body, "  int v%d = %s(%d);\n", i, getters[(i-1)%3], i)
+					lits = append(lits, glit[(i-1)%3])
+				} else {
+					fmt.Fprintf(&body, "  mrbc_value v%d = GET_ARG(%d);\n", i, i)
+					lits = append(lits, "1")
+				}
+			}
+			src := "#include \"mrubyc.h\"\n\nvoid fn_target(mrb_vm *vm, mrb_value v[], int argc)\n{\n" + body.String() + "  SET_NIL_RETURN();\n}\n\nvoid mrbc_cx_init(mrb_vm *vm)\n{\n  mrbc_class *cls = mrbc_define_class(vm, \"Cx\", mrbc_class_object);\n  mrbc_define_class_method(vm, cls, \"target\", fn_target);\n}\n"
+			defs = append(defs, c26def{"argc-pattern", src, n, n, lits, fmt.Sprintf("n=%d:sparse-typed-mask=%d", n, mask)})
+		}
+	}
 	work := filepath.Join(x.pool.Scratch, "c2j")
 	os.MkdirAll(work, 0o755)
 	runConv := func(bin, order, file string) (string, error) {
